@@ -98,7 +98,7 @@ theorem resolveVarNameConflict_extends (sc : Scope) (sug : Str) :
     · exact ih _ _ _ hh
     · split at hh
       · split at hh
-        · cases hh
+        · cases hh; exact ⟨_, rfl⟩
         · cases hh; exact ⟨_, rfl⟩
       · cases hh; exact ⟨_, rfl⟩
 
